@@ -12,6 +12,7 @@ import (
 	"strconv"
 	"sync"
 	"sync/atomic"
+	"syscall"
 	"time"
 )
 
@@ -110,7 +111,10 @@ func NewConn(s Script, clk *Clock) *Conn {
 	var inner error = ErrInjected
 	k := connCtr.Add(1)
 	noAddr := k%3 == 0 // every third connection does not know its addresses
-	if k%2 == 0 {
+	if k%5 == 1 {
+		// a connection reset by the peer, as the kernel reports it: an I/O failure like any other
+		inner = connReset{}
+	} else if k%2 == 0 {
 		// every second connection's I/O failure is of the "connection timed out" kind: a permanent error whose
 		// Timeout() method says true (ETIMEDOUT after retransmissions gave up) - not a poll deadline
 		inner = permanentTimeout{}
@@ -173,6 +177,14 @@ func (permanentTimeout) Error() string        { return ErrInjected.Error() } // 
 func (permanentTimeout) Timeout() bool        { return true }
 func (permanentTimeout) Temporary() bool      { return false }
 func (permanentTimeout) Is(target error) bool { return target == ErrInjected }
+
+// connReset is ErrInjected in the shape of "connection reset by peer": errors.Is(err, syscall.ECONNRESET) holds.
+type connReset struct{}
+
+func (connReset) Error() string { return ErrInjected.Error() } // same text, see permanentTimeout
+func (connReset) Is(target error) bool {
+	return target == ErrInjected || target == error(syscall.ECONNRESET)
+}
 
 // Read follows the script.
 func (c *Conn) Read(p []byte) (int, error) {
